@@ -221,7 +221,8 @@ func (h Engine) applyAuthMiddleware(echoServer core.EchoRouter, path string, con
 	address := h.server.getAddressForPath(path)
 
 	skipper := func(c echo.Context) bool {
-		return !matchesPath(c.Request().RequestURI, path)
+		// match on the parsed path the router dispatches on: RequestURI may be in absolute-form (http://host/internal/...)
+		return !matchesPath(c.Request().URL.Path, path)
 	}
 
 	// Auth
